@@ -3086,6 +3086,11 @@ def distributed_shampoo(
         pad_vector(stat.bucket_size, max_size) for stat in statistics
     ]
 
+    if not packed_quantized_statistics:
+      # Nothing to precondition (max_size is 0: an identity of that size cannot
+      # even be quantized).
+      return states
+
     to_pad = -num_statistics % num_devices
     padded_eye = jnp.eye(max_size, dtype=jnp.float32)
     quantized_eye = QuantizedValue.from_float_value(padded_eye, quantized_dtype,
@@ -3098,9 +3103,6 @@ def distributed_shampoo(
         [quantized_eye.bucket_size for _ in range(to_pad)])
     exponents.extend([1 for _ in range(to_pad)])
     paddings = [len(stat.quantized) for stat in statistics] + [0] * to_pad
-
-    if not packed_quantized_statistics:
-      return states
 
     if reuse_preconditioner:
       total = len(packed_quantized_statistics)
